@@ -288,7 +288,8 @@ def correspondence(ctx):
 # ----------------------------------------------------------------------------- oracle
 def _domain_case(rng):
     while True:
-        fs = float(rng.choice([20.0, 50.0, 100.0, 1000.0, rng.uniform(5, 2000)]))
+        # "any fs": round and non-round sampling periods, Hz to tens of kHz
+        fs = float(rng.choice([20.0, 50.0, 100.0, 1000.0, 1200.0, 2048.0, 3000.0, 4096.0, 44100.0, rng.uniform(5, 2000), 10.0 ** rng.uniform(-1, 5)]))
         nxseg = int(rng.choice([1024, 2048, 4096, 8192]))
         xi = rng.uniform(0.02, 0.05)
         lo = max(0.04, 2 / (xi * nxseg), 60 / nxseg)  # >= 4 lines per bandwidth, >= 30 periods in the half record
@@ -297,13 +298,17 @@ def _domain_case(rng):
         return fs, nxseg, xi, rng.uniform(lo, 0.25), rng.randint(2, 6), rng.uniform(4.0, 8.0)
 
 
-def _analytic(fs, nxseg, xi, fnr, phi):
+def _analytic(fs, nxseg, xi, fnr, phi, level=None):
+    """level None: the spectrum in its natural units; else: peak spectral density scaled to `level`
+    (the claim is for the analytic spectral density up to any positive constant)"""
     fn = fnr * fs
     nf = nxseg // 2 + 1
     freq = np.arange(nf) * fs / nxseg
     w = 2 * np.pi * freq
     wn = 2 * np.pi * fn
     S = 1 / ((wn**2 - w**2) ** 2 + (2 * xi * wn * w) ** 2)
+    if level is not None:
+        S = S / np.max(S) * level
     Sy = np.einsum("i,j,f->ijf", phi, phi, S) + 1e-9 * np.max(S) * np.eye(len(phi))[:, :, None]
     return freq, Sy.astype(complex), fn
 
@@ -319,23 +324,29 @@ def _run_fn(fdd, freq, Sy, fs, fn, xi, nxseg, method, kbw):
 
 
 def _run_class(fdd, freq, Sy, fs, fn, xi, nxseg, method, kbw):
-    """through the algorithm class: the spectral result is installed as if run() had produced it"""
+    """through the setup and the algorithm class (sampling frequency handed over by SingleSetup.add_algorithms);
+    the exact spectral result is installed as if run() had produced it"""
     from pyoma2.algorithms import EFDD, FSDD
+    from pyoma2.setup import SingleSetup
 
     cls = {"EFDD": EFDD, "FSDD": FSDD}[method]
     alg = cls(name="a", nxseg=nxseg, method_SD="per")
-    alg._set_data(data=np.zeros((8, Sy.shape[0])), fs=fs)
+    ss = SingleSetup(np.zeros((8, Sy.shape[0])), fs)
+    ss.add_algorithms(alg)
     Sval, Svec = fdd.SD_svalsvec(Sy)
     alg.result = alg.ResultCls(freq=freq, Sy=Sy, S_val=Sval, S_vec=Svec)
     bw = 2 * xi * fn
-    alg.mpe(sel_freq=[fn], DF1=max(2 * fs / nxseg, bw), DF2=kbw * bw)
+    sel = [fn]
+    ss.mpe("a", sel_freq=sel, DF1=max(2 * fs / nxseg, bw), DF2=kbw * bw)
+    if sel != [fn]:
+        raise AssertionError("mpe modified the caller's sel_freq")
     return float(alg.result.Fn[0]), float(alg.result.Xi[0]), np.asarray(alg.result.Phi)[:, 0]
 
 
-def _judge(ctx, path, fs, nxseg, xi, fnr, nch, kbw, phi, runner, do_scale):
+def _judge(ctx, path, fs, nxseg, xi, fnr, nch, kbw, phi, runner, do_scale, level=None):
     fdd = _fdd()
-    freq, Sy, fn = _analytic(fs, nxseg, xi, fnr, phi)
-    inp = {"path": path, "fs": fs, "nxseg": nxseg, "xi": xi, "fn": fn, "fn_over_fs": fnr, "phi": phi.tolist(), "DF2_bandwidths": kbw,
+    freq, Sy, fn = _analytic(fs, nxseg, xi, fnr, phi, level)
+    inp = {"path": path, "level": level, "fs": fs, "nxseg": nxseg, "xi": xi, "fn": fn, "fn_over_fs": fnr, "phi": phi.tolist(), "DF2_bandwidths": kbw,
            "spectrum": "S(f)=1/((wn^2-w^2)^2+(2 xi wn w)^2) * phi phi^T + 1e-9 max(S) I, f_k = k fs/nxseg"}
     res = {}
     for method in ("EFDD", "FSDD"):
@@ -367,11 +378,12 @@ def _judge(ctx, path, fs, nxseg, xi, fnr, nch, kbw, phi, runner, do_scale):
     for what, methods in bad.items():
         if methods:
             who = "both" if len(methods) == 2 else methods[0] + "-only"
-            ctx.violation(f"{what}-error-{who}", f"{path}: {what} outside tolerance for {methods} (fn/fs={fnr:.4f}, xi={xi:.4f}, nxseg={nxseg})",
+            msg = "exception instead of an estimate" if what == "exc" else f"{what} outside tolerance"
+            ctx.violation(f"{what}-error-{who}", f"{path}: {msg} for {methods} (fn/fs={fnr:.4f}, xi={xi:.4f}, nxseg={nxseg}, fs={fs:g})",
                           inp, observed=obs, expected=exp)
     # invariance under a positive factor
     if do_scale:
-        c = 10.0 ** ctx.rng.uniform(-6, 6)
+        c = 10.0 ** ctx.rng.uniform(-12, 12)
         for method, r in res.items():
             if isinstance(r, Exception):
                 continue
@@ -397,9 +409,13 @@ def oracle(ctx, scale):
         g = ctx.nprng()
         phi = g.standard_normal(nch)
         phi = phi / phi[np.argmax(np.abs(phi))]
-        via_class = it % 4 == 3
+        via_class = it % 2 == 1
+        # absolute level of the spectral matrix: natural units, or peak density anywhere in 1e-22 .. 1e12
+        level = 10.0 ** rng.uniform(-22, 12) if rng.random() < 0.7 else None
         _judge(ctx, "EFDD/FSDD.mpe" if via_class else "EFDD_mpe", fs, nxseg, xi, fnr, nch, kbw, phi,
-               _run_class if via_class else _run_fn, do_scale=(it % 3 == 0))
+               _run_class if via_class else _run_fn, do_scale=(it % 3 == 0), level=level)
+        ctx.count("oracle_level_below_1e-14" if (level is not None and level < 1e-14) else "oracle_level_other")
+        ctx.count("oracle_fs_kHz" if fs >= 1000 else "oracle_fs_below_kHz")
         ctx.count(f"oracle_nxseg_{nxseg}")
         ctx.count("oracle_via_class" if via_class else "oracle_via_function")
 
@@ -411,12 +427,12 @@ def replay(rec):
     print("replaying", v["sig"], "-", v["what"])
     phi = np.array(inp["phi"])
     fs, nxseg, xi = inp["fs"], inp["nxseg"], inp["xi"]
-    freq, Sy, fn = _analytic(fs, nxseg, xi, inp["fn_over_fs"], phi)
+    freq, Sy, fn = _analytic(fs, nxseg, xi, inp["fn_over_fs"], phi, inp.get("level"))
     runner = _run_class if inp["path"].startswith("EFDD/FSDD") else _run_fn
     rc = 0
     for method in ("EFDD", "FSDD"):
         try:
-            f, x, P = runner(fdd, freq, Sy * inp.get("c", 1.0), fs, fn, xi, nxseg, method, inp["DF2_bandwidths"])
+            f, x, P = runner(fdd, freq, Sy, fs, fn, xi, nxseg, method, inp["DF2_bandwidths"])
         except Exception as e:
             print(method, "exception", type(e).__name__, e)
             rc = 1
@@ -425,4 +441,10 @@ def replay(rec):
         print(f"{method}: fn {f:.6g} (true {fn:.6g}, err {ef:.3%})  xi {x:.5f} (true {xi:.5f}, err {ex:.2%})  MAC {mc:.6f}")
         if ef > 0.025 or ex > 0.15 or mc < 0.999:
             rc = 1
+        if "c" in inp:
+            f2, x2, _ = runner(fdd, freq, Sy * inp["c"], fs, fn, xi, nxseg, method, inp["DF2_bandwidths"])
+            same = abs(f2 - f) <= 1e-9 * abs(f) and abs(x2 - x) <= 1e-9 * abs(x)
+            print(f"{method}: spectrum x {inp['c']:.3g}: fn {f2:.6g} xi {x2:.5f} -> {'unchanged' if same else 'CHANGED'}")
+            if not same:
+                rc = 1
     return rc
